@@ -89,6 +89,9 @@ func c06fixed() []c06case {
 	// beyond the 1 MiB bound of the quantifier: nesting as deep as one client can send in 16 MiB
 	out = append(out, c06case{Class: "deep-nesting-16MiB", Stream: bytes.Repeat([]byte("*1\r\n"), 4<<20)})
 	out = append(out, c06case{Class: "deep-nesting-16MiB", Stream: append(bytes.Repeat([]byte("*1\r\n"), 4<<20), []byte(":1\r\n")...)})
+	// 32 MiB of nothing but line ends (what a client holding down the return key sends), alone and in front of a request
+	out = append(out, c06case{Class: "blank-lines-32MiB", Stream: bytes.Repeat([]byte("\r\n"), 16<<20)})
+	out = append(out, c06case{Class: "blank-lines-32MiB", Stream: append(bytes.Repeat([]byte("\n"), 32<<20), []byte("*1\r\n$4\r\nPING\r\n")...)})
 	// wide arrays within 1 MiB
 	out = append(out, c06case{Class: "wide", Stream: append([]byte("*200000\r\n"), bytes.Repeat([]byte(":1\r\n"), 200000)...)})
 	out = append(out, c06case{Class: "wide", Stream: append([]byte("*200001\r\n"), bytes.Repeat([]byte(":1\r\n"), 200000)...)})
